@@ -282,6 +282,7 @@ class Gen:
 
     def case(self, malformed, w=None, flavor=None, history=False):
         w, rng = w or self.world(), self.rng
+        self.w = w
         em = w.em
         flavor = flavor or rng.choice(["mixed", "nested", "binder", "binder", "leaf", "chain", "equiv", "not", "capture", "capture",
                                        "quant", "absent", "identity"])
@@ -656,10 +657,14 @@ def run(ctx):
     import random as _random
     from unified_planning.model.walkers import Substituter
 
+    last = {}
+
     def outcome_sig(f):
         try:
-            return ("ok", ser_expr(f(), Names()))
+            last["node"] = f()
+            return ("ok", ser_expr(last["node"], Names()))
         except BaseException as ex:
+            last["node"] = None
             return ("exc", type(ex).__name__, str(ex))
 
     n_hist = 30 if ctx.quick else 200
@@ -702,6 +707,7 @@ def run(ctx):
                 got = outcome_sig(lambda: sub.substitute(e, d))
             else:
                 got = outcome_sig(lambda: e.substitute(d))
+            res = last["node"]        # nothing else may call the shared walker between the calls of the sequence
             c2 = replica()
             if c2 is None or ser_expr(c2["e"], Names()) != ser_expr(e, Names()):
                 ctx.fail("harness", "history replica in a fresh Environment is not the same case", ["c13", "replica-differs"], rec, False)
@@ -743,7 +749,6 @@ def run(ctx):
                 names = Names()
                 for f in w.ifuns:
                     names.ifun(f)
-                res = e.substitute(dict(content))
                 spec = topdown(em, e, dict(content))
                 if res != spec:
                     direct_failures += 1
